@@ -47,7 +47,17 @@ def valid_doc(seed, dm):
 
 FAULTS = ['dangling-target', 'initial-attr-outside', 'history-no-default', 'history-two-defaults', 'history-default-outside', 'non-orthogonal-targets',
           'duplicate-id', 'initial-element-with-event', 'initial-element-with-cond', 'unknown-datamodel', 'initial-element-target-outside', 'initial-attr-nonexistent',
-          'target-own-ancestor-and-descendant', 'transition-to-two-children-of-compound-via-initial', 'non-orthogonal-pair-among-three-targets']
+          'target-own-ancestor-and-descendant', 'transition-to-two-children-of-compound-via-initial', 'non-orthogonal-pair-among-three-targets',
+          'shallow-history-default-deeper', 'non-orthogonal-deep-pair', 'history-default-two-non-orthogonal-targets']
+
+
+def force_first(ch, hist, tr_targets, content=()):
+    """make sure the arrangement is exercised: a fresh top-level state is the initial state and goes to the given targets on the first event"""
+    st = C.St('zstart', 'state', ch.root); ch.root.children.insert(0, st)
+    st.trans.append(C.Tr(st, ['e1'], None, list(tr_targets), False, list(content)))
+    ch.root.initial_attr = ['zstart']; ch.root.initial_elem = None
+    ch.reindex()
+    return ['e1'] + list(hist)
 
 
 def faulty_doc(seed, dm):
@@ -105,6 +115,29 @@ def faulty_doc(seed, dm):
         cs = [s for s in proper if s.kind == 'state' and s.states()]
         if not ts or not cs: return None
         s = rng.choice(cs); rng.choice(ts).targets = [s.id, s.states()[-1].id]
+    elif kind == 'shallow-history-default-deeper':
+        # Rec. 3.10: the default transition of a shallow history must name immediate children of the history's parent
+        hs = [h for h in ch.doc if h.kind == 'history' and h.htype == 'shallow' and any(C.is_descendant(q, h.parent) and q.parent is not h.parent for q in proper)]
+        if not hs: return None
+        h = rng.choice(hs)
+        h.trans[0].targets = [rng.choice([q for q in proper if C.is_descendant(q, h.parent) and q.parent is not h.parent]).id]
+        hist = force_first(ch, hist, [h.id])
+    elif kind == 'history-default-two-non-orthogonal-targets':
+        hs = [h for h in ch.doc if h.kind == 'history' and len(h.parent.states()) >= 2 and h.parent.kind == 'state']
+        if not hs: return None
+        h = rng.choice(hs); h.trans[0].targets = [h.parent.states()[0].id, h.parent.states()[1].id]
+        hist = force_first(ch, hist, [h.id])
+    elif kind == 'non-orthogonal-deep-pair':
+        # two states below different children of one compound state, each at least two levels below it
+        pairs = []
+        for s0 in proper + [ch.root]:
+            if s0.kind not in ('state', 'scxml') or len(s0.states()) < 2: continue
+            a, b = s0.states()[0], s0.states()[1]
+            da = [q for q in proper if C.is_descendant(q, a)]; db = [q for q in proper if C.is_descendant(q, b)]
+            if da and db: pairs.append((rng.choice(da), rng.choice(db)))
+        if not pairs: return None
+        a, b = rng.choice(pairs)
+        hist = force_first(ch, hist, [a.id, b.id] if rng.random() < 0.5 else [b.id, a.id])
     elif kind == 'duplicate-id':
         if len(proper) < 2: return None
         a, b = rng.sample(proper, 2)
@@ -226,7 +259,7 @@ def main(tier, replay):
         raw = T.run_jobs(dbin, [('r', T.job_text('r', case.get('engine', 'large'), case['xml'], case.get('history', []), flags=['validate', 'novars']))])
         print('\n'.join(l for l in raw['r']['lines'] if l[:2] in ('VI', 'VD', 'TH', 'MA'))[:3000]); print(raw['r']['crash']); sys.exit(0)
     outroot = common.scratch('c19')
-    nv, nf = (400, 600) if tier == 'quick' else (10000, 20000)
+    nv, nf = (400, 1500) if tier == 'quick' else (10000, 30000)
     base = chk.seed * 1000000 + 1919
     cases = [('v%d' % i, 'valid', base + i, ('lua', 'promela', 'null')[i % 3]) for i in range(nv)]
     cases += [('f%d' % i, 'faulty', base + 500000 + i, ('lua', 'promela', 'lua', 'null')[i % 4]) for i in range(nf)]
@@ -258,7 +291,7 @@ def main(tier, replay):
     shutil.rmtree(outroot, ignore_errors=True)
     chk.add('documents', dict(stats)); chk.add('faults_reported_fatal', dict(reported)); chk.add('faults_not_reported_and_run', dict(passed)); chk.add('xml_mutants', dict(mv))
     chk.rule = ('valid-by-construction documents (incl. id-less atomic states/finals, multi-target deep initial attributes, real lua/promela expressions) must get no FATAL issue and no "Syntax error" warning; '
-                'single-fault documents (15 fault kinds) that get no FATAL issue are run with histories on engines large and fast under ASan/UBSan with the legality monitor and through ChartToC/ChartToPromela; '
+                'single-fault documents (18 fault kinds, the newer ones with a first transition that exercises the arrangement) that get no FATAL issue are run with histories on engines large and fast under ASan/UBSan with the legality monitor and through ChartToC/ChartToPromela; '
                 'XML mutants are validated for robustness. distinct_nontrivial = documents validated')
     chk.assumptions = ['"valid" = valid by the generator\'s construction rules (written from the Recommendation)', 'a reported fault is counted, not judged; a missed fault only matters when it misbehaves']
     chk.min_distinct = 100
